@@ -449,7 +449,8 @@ class BaseAdaptiveSupport(ABC):
             raise NotImplementedError("Proposal '{}' does not support "
                                       "resetting the adaptation."
                                       .format(self.name))
-        self.start_step = self.nsteps
+        # start_step is the first step that gets adapted, which is at least 1
+        self.start_step = max(self.nsteps, 1)
 
         # note: the proposals may update their parameters in place, so copies
         # of the initial values are needed
